@@ -16,6 +16,7 @@ EXTENDS Naturals, Sequences, FiniteSets, TLC, Json
 CONSTANTS SLOTS,      \* sequence of root slot names
           REFS,       \* sequence of reference names
           TEXTS,      \* strings for char values
+          NUMTEXTS,   \* valid number texts for parse_numb (may be empty)
           KEYS,       \* table key spellings; CanonK gives the canonical-equivalence class; "bad" is invalid
           PNAMES,     \* packet item name spellings; FoldN gives the case-folded class; "bad" is invalid
           KINDS,      \* kinds for create / init
@@ -97,6 +98,11 @@ CopyCharR(d, t) == IF ~Live(d) THEN Off ELSE
     LET dead == Below(RootOf(d), PathOf(d))
     IN On([op |-> "value_op", f |-> "copy_char", v |-> d, text |-> t, rc |-> OK, drop |-> dead],
           [Cur EXCEPT !.roots = SetVal(d, [k |-> "char", t |-> t, q |-> 1]), !.refs = DropRefs(dead)])
+\* cif_value_parse_numb: the value becomes a number with the given (valid) text - digits, scale and su are what it denotes
+ParseNumbR(d, t) == IF ~Live(d) THEN Off ELSE
+    LET dead == Below(RootOf(d), PathOf(d))
+    IN On([op |-> "value_op", f |-> "parse_numb", v |-> d, text |-> t, rc |-> OK, drop |-> dead],
+          [Cur EXCEPT !.roots = SetVal(d, [k |-> "numb", t |-> t, q |-> 0]), !.refs = DropRefs(dead)])
 CloneR(d) == IF ~Live(d) \/ FreeSlot = "" THEN Off ELSE
     On([op |-> "value_op", f |-> "clone", v |-> d, out |-> FreeSlot, rc |-> OK], [Cur EXCEPT !.roots[FreeSlot] = Val(d)])
 \* clone onto an existing root that does not overlap the source
@@ -237,6 +243,7 @@ NameSeqs == UNION {[1..n -> PNAMES] : n \in 0..2}
 Results ==
     {CreateR(k) : k \in KINDS} \cup {FreeR(s) : s \in SeqToSet(SLOTS)} \cup {DumpR(d) : d \in Desigs}
     \cup {InitR(d, k) : d \in Desigs, k \in KINDS} \cup {CopyCharR(d, t) : d \in Desigs, t \in TEXTS}
+    \cup {ParseNumbR(d, t) : d \in Desigs, t \in NUMTEXTS}
     \cup {CloneR(d) : d \in Desigs} \cup {CloneIntoR(d, s) : d \in Desigs, s \in SeqToSet(SLOTS)} \cup {CountR(d) : d \in Desigs}
     \cup {GetAtR(d, i) : d \in Desigs, i \in Idx} \cup {SetAtR(d, i, a) : d \in Desigs, i \in Idx, a \in Args}
     \cup {InsertAtR(d, i, a) : d \in Desigs, i \in Idx, a \in Args} \cup {RemoveAtR(d, i, c) : d \in Desigs, i \in Idx, c \in {0, 1}}
